@@ -300,6 +300,19 @@ def viareg(x):
 
 HANDLERS = {"viareg": viareg, "report": report}
 
+LIMITS = [1, 2]
+
+@m.memento_function(cluster=CL)
+def weigh(limits, x):
+    return x + len(limits)
+
+bound = weigh.partial(LIMITS)   # a module-level modifier clone that binds a list of the module
+
+@m.memento_function(cluster=CL)
+def viabound(x):
+    REC.hit("viabound", x)
+    return bound(x)
+
 import %(pkg)s.other as cfg
 import %(pkg)s.other2 as cfg2
 
@@ -337,6 +350,7 @@ def scale(x):
 def scale3(x):
     return x %(op)s FACTOR %(op)s 4
 """
+ASKED = ("report", "total", "viaattr", "twice", "declared", "viareg", "viabound")
 REBINDS = {  # statement executed in the main module, after versions were asked once
     # the name of a memento function re-bound to its plain function / a modifier clone / an unregistered wrapper
     "memento_to_its_plain_function": "report = report.fn",
@@ -365,6 +379,8 @@ REBINDS = {  # statement executed in the main module, after versions were asked 
     "opaque_list_changed_in_place": ["FACTOR = [{1, 2}]", "FACTOR[0] = 5"],
     # ... a helper's name is bound to a function of another package, then to a function of the program
     "helper_name_to_a_foreign_function_and_back": ["import json\nscale = json.dumps", "scale = scale2"],
+    # ... the list that a module-level partial clone binds is changed in place
+    "argument_bound_by_a_partial_clone_changed_in_place": ["LIMITS.append(3)"],
     # ... the name of a plain helper is re-bound to an array
     "helper_name_to_an_array": ["import numpy as _np\nscale = _np.arange(3)"],
 }
@@ -386,7 +402,7 @@ def rebind_child(arg):
         except Exception as e:
             return "raise:%s: %s" % (type(e).__name__, str(e)[:120])
 
-    res = {"before": {n: ask(n) for n in ("report", "total", "viaattr", "twice", "declared", "viareg") if hasattr(getattr(main, n), "version")}}
+    res = {"before": {n: ask(n) for n in ASKED if hasattr(getattr(main, n), "version")}}
     if arg.get("live"):
         if arg.get("call_first"):
             main.total(3)
@@ -397,9 +413,15 @@ def rebind_child(arg):
             linecache.cache[name] = (len(src), None, src.splitlines(True), name)
             exec(compile(src, name, "exec"), main.__dict__)
             if k + 1 < len(stmts):  # every version is asked between two statements
-                res.setdefault("between", []).append({n: ask(n) for n in ("report", "total", "viaattr", "twice", "declared", "viareg")
+                res.setdefault("between", []).append({n: ask(n) for n in ASKED
                                                       if hasattr(getattr(main, n), "version")})
-    asked = ["twice", "declared", "viareg", "total", "viaattr", "report"] if arg.get("order") else ["report", "viaattr", "total", "twice", "declared", "viareg"]
+    if not arg.get("live"):
+        # the oracle computes from scratch: everything the module's statements did is in place before a version is
+        # computed (in a correct implementation no version depends on when it was first computed)
+        from twosigma.memento.memento import MementoFunction as _MF
+
+        _MF.increment_global_fn_generation()
+    asked = ["twice", "declared", "viareg", "total", "viabound", "viaattr", "report"] if arg.get("order") else ["report", "viaattr", "total", "twice", "viabound", "declared", "viareg"]
     if arg.get("first") in asked:  # (whoever is asked first gets no help from another function's query)
         asked = [arg["first"]] + [n for n in asked if n != arg["first"]]
     for n in asked:
@@ -444,7 +466,7 @@ def run_rebind(case):
         stmt_text = "\n".join(REBINDS[how]) if isinstance(REBINDS[how], list) else REBINDS[how]
         write(sc.path("fresh"), "\n" + stmt_text % {"pkg": pkg} + "\n")
         try:
-            first = {"variable_of_the_other_module": "total"}.get(how)
+            first = {"variable_of_the_other_module": "total", "argument_bound_by_a_partial_clone_changed_in_place": "viabound"}.get(how)
             live = procs.in_child(rebind_child, {"root": sc.path("live"), "pkg": pkg, "how": how, "live": True,
                                                 "call_first": rng.random() < 0.5, "order": rng.random() < 0.5, "first": first})
             fresh = procs.in_child(rebind_child, {"root": sc.path("fresh"), "pkg": pkg, "how": how, "first": first})
